@@ -14,6 +14,7 @@
 From Coq Require Import List ZArith Bool.
 Import ListNotations.
 From Goat Require Import Model.Status Proofs.StatusProofs.
+From Goat Require Model.Client Model.Server Model.Sys Proofs.SysStatus.
 Open Scope Z_scope.
 
 (* Unary, for EVERY handler result: with a nil error the caller gets the reply;
@@ -206,6 +207,87 @@ Theorem C03_wire_code_nonok : forall (M D : Type) (ws : wstatus M D),
 Proof. intros M D. exact of_wire_nonok. Qed.
 Print Assumptions C03_wire_code_nonok.
 
+(* ---- on interleavings: every run of the concurrent models (Model/Client.v,
+   Model/Server.v and their product Model/Sys.v - builders cl, sv, sy; the lemmas
+   are in Proofs/SysStatus.v). Any order of caller operations, handler steps,
+   transport deliveries, resets, cancellations, read and write failures. ---- *)
+
+(* client: whatever RecvMsg returns at the end of a stream is io.EOF / a status /
+   Unavailable only as the classification of an envelope THIS call took (a clean
+   trailer; a trailer with that non-OK status; a reset), Canceled /
+   DeadlineExceeded only when the call's own context is done, the connection's
+   error only after the transport's read failed *)
+Theorem C03_client_observes : forall ls (s : Client.state),
+  Client.lrun Client.init ls = Some s ->
+  forall c k x, nth_error (Client.calls s) c = Some k ->
+    In (Client.EvRecvRet c (Client.RErr x)) (Client.log s) -> SysStatus.recv_error_ok s c k x.
+Proof. exact SysStatus.client_recv_error_kinds. Qed.
+Print Assumptions C03_client_observes.
+
+(* the classification used by the concurrent client model is the one of this
+   file's theorems (client_stream_final), envelope by envelope *)
+Theorem C03_client_model_link : forall (m_reset : Z) (e : Client.env),
+  (forall st, Client.estatus e = Some st -> 0 <= Client.st_code st < two31) ->
+  Client.final_of e = SysStatus.of_outcome e (client_stream_final m_reset (SysStatus.abs_env e)).
+Proof. exact SysStatus.final_of_is_status_model. Qed.
+Print Assumptions C03_client_model_link.
+
+(* server: the trailer SendTrailer builds for stream handler h is a function of
+   what h returned: status [sstatus e], OK exactly for nil, no reset, no body *)
+Theorem C03_server_trailer : forall nw ls (s : Server.state) h fr,
+  Server.lrun (Server.init_n nw) ls = Some s -> In (Server.SvTrailer h fr) (Server.log s) ->
+  In (Server.SvRet h) (Server.log s) /\
+  exists k e, fr = Server.trl_frame k e /\
+              Client.estatus (Server.f_env fr) = Some (Server.sstatus e) /\ Client.etrl (Server.f_env fr) <> None /\
+              Client.erst (Server.f_env fr) = false /\ Client.ebody (Server.f_env fr) = None /\
+              (Client.st_code (Server.sstatus e) = 0 <-> e = Server.HNil).
+Proof. exact SysStatus.server_trailer_status. Qed.
+Print Assumptions C03_server_trailer.
+
+(* the system: in EVERY run - reset overtaking the trailer, cancellation with
+   unread messages, faults - a stream call is reported successful (io.EOF) only if
+   the handler serving it returned nil and its OK trailer is the envelope the
+   caller took. (That every message was delivered before it: C02_caller_eof_complete.)
+   PARTIAL on the product model: for a NON-OK status the identification "the status
+   the caller observes is sstatus of what the handler returned" is stated per
+   component (C03_client_observes: the status is that of an envelope the call took,
+   with trailer and without reset; C03_server_trailer: the only envelopes with a
+   trailer and a status that a server writes for a stream are SendTrailer's;
+   the wire carries them unchanged: C02_wire_s2c_prefix / client_read_was_written)
+   and composed by hand; the product-model invariant behind C02_caller_eof_sound
+   (Proofs/SysC02c.v EI) is specialised to OK trailers. *)
+Theorem C03_sys_no_false_success_partial : forall pol ls (s : Sys.state) c k,
+  Sys.lrun pol Sys.init ls = Some s ->
+  nth_error (Client.calls (Sys.cl s)) c = Some k -> Client.k_unary k = false ->
+  In (Client.EvRecvRet c (Client.RErr Client.EEof)) (Client.log (Sys.cl s)) ->
+  exists h kh k2, nth_error (Server.hs (Sys.sv s)) h = Some kh /\ Server.fid (Server.h_req kh) = Client.k_id k /\
+                  In (Server.SvRet h) (Server.log (Sys.sv s)) /\
+                  In (Server.SvTrailer h (Server.trl_frame k2 Server.HNil)) (Server.log (Sys.sv s)) /\
+                  In (Client.EvTake c (Server.f_env (Server.trl_frame k2 Server.HNil))) (Client.log (Sys.cl s)).
+Proof. exact SysStatus.sys_eof_only_if_handler_nil. Qed.
+Print Assumptions C03_sys_no_false_success_partial.
+
+(* streams, non-status errors (the audit: "the stream form is not a theorem"):
+   with grpc's law FromError e = (Unknown, text e, []), false for such errors, the
+   caller observes Unknown with the error text *)
+Theorem C03_stream_plain_error : forall (M D P E : Type)
+    (from_error : E -> status M D * bool) (m_ok m_reset : M) (text : E -> M) (e : E),
+  (forall e, code_ok (st_code (fst (from_error e)))) ->
+  from_error e = (mkSt cUnknown (text e) [], false) ->
+  client_stream_final m_reset (@stream_final M D P E from_error m_ok (Some e)) =
+  Some (SErr (mkSt cUnknown (text e) [])).
+Proof.
+  intros M D P E from_error m_ok m_reset text e H1 Hfe.
+  rewrite (stream_status_error from_error m_ok m_reset e _ false H1 Hfe). reflexivity.
+Qed.
+Print Assumptions C03_stream_plain_error.
+
+(* a stream envelope {OK status, body, trailer}: clean end, the body is not delivered *)
+Theorem C03_stream_ok_trailer_with_body : forall (M D P : Type) (m_reset m : M) (d : list D) (b : P) (rest : list (fenv M D P)),
+  client_stream_run m_reset (mkEnv (Some (mkWs 0 m d)) (Some b) true false :: rest) = ([], Some SEof).
+Proof. reflexivity. Qed.
+Print Assumptions C03_stream_ok_trailer_with_body.
+
 (* non-vacuity: concrete instances (messages, details, bodies, errors are numbers;
    error n "is" a status error with code n when n < 17, a plain error otherwise) *)
 Definition ex_from_error (e : Z) : status Z Z * bool :=
@@ -228,3 +310,29 @@ Proof. vm_compute. reflexivity. Qed.
 Example C03_ex_reset :
   client_stream_run 77 [msg_env 1; mkEnv (Some (mkWs 0 0 [])) (@None Z) true true] = ([1], Some (SErr (mkSt cUnavailable 77 (@nil Z)))).
 Proof. vm_compute. reflexivity. Qed.
+(* the concurrent client model produces each kind of terminal observation the
+   interleaving theorems speak of (Client.run = the model's executable semantics:
+   every environment action followed by its internal rules to quiescence) *)
+Example C03_ex_client_status :
+  In (Client.EvRecvRet 0 (Client.RErr (Client.EStatus (Client.mkSt 5 7))))
+     (Client.log (Client.run [Client.ANewStream false;
+                              Client.ADeliver (Client.mkEnv 1 (Some (Client.MdOk 0)) (Some (Client.mkSt 5 7)) None (Some (Client.MdOk 0)) false);
+                              Client.ARecv 0 false])).
+Proof. vm_compute. tauto. Qed.
+Example C03_ex_client_reset_overtakes :
+  In (Client.EvRecvRet 0 (Client.RErr Client.EReset))
+     (Client.log (Client.run [Client.ANewStream false;
+                              Client.ADeliver (Client.mkEnv 1 (Some (Client.MdOk 0)) None None (Some (Client.MdOk 0)) true);
+                              Client.ADeliver (Client.mkEnv 1 (Some (Client.MdOk 0)) (Some (Client.mkSt 0 0)) None (Some (Client.MdOk 0)) false);
+                              Client.ARecv 0 false])).
+Proof. vm_compute. tauto. Qed.
+Example C03_ex_client_cancel :
+  In (Client.EvRecvRet 0 (Client.RErr Client.ECanceled))
+     (Client.log (Client.run [Client.ANewStream false; Client.ARecv 0 false; Client.ACancel 0])).
+Proof. vm_compute. tauto. Qed.
+Example C03_ex_model_link :
+  Client.final_of (Client.mkEnv 1 None (Some (Client.mkSt 9 3)) (Some 4) (Some (Client.MdOk 0)) false)
+  = SysStatus.of_outcome (Client.mkEnv 1 None (Some (Client.mkSt 9 3)) (Some 4) (Some (Client.MdOk 0)) false)
+      (client_stream_final 77 (SysStatus.abs_env (Client.mkEnv 1 None (Some (Client.mkSt 9 3)) (Some 4) (Some (Client.MdOk 0)) false))).
+Proof. vm_compute. reflexivity. Qed.
+
